@@ -419,27 +419,91 @@ Proof.
   - injection H as ->. exists [], r. split; [reflexivity | intros w []].
 Qed.
 
+(* raise mode, any pool size: a failing item is never swallowed - the exception of one of the items is raised *)
+Lemma imap_raise_failure pool_size items arr split e0 :
+  is_perm arr (length items) -> first_exc items = Some e0 ->
+  exists e rs, In (Exc e) items /\ imap pool_size false items arr split = (rs, Some e).
+Proof.
+  intros Hp Hf.
+  destruct (first_exc_split _ _ Hf) as (pre & post & Heq & Hok).
+  destruct (Nat.lt_ge_cases (length items) 2) as [Hlen|Hlen].
+  - (* a single item: _single_call *)
+    subst items. exists e0, pre. split; [apply in_or_app; right; left; reflexivity|].
+    apply imap_raise_sequential; [|exact Hok].
+    right. rewrite app_length in *. simpl in *. destruct pre; simpl in *; lia.
+  - destruct (Nat.lt_ge_cases pool_size 2) as [Hps|Hps].
+    + subst items. exists e0, pre. split; [apply in_or_app; right; left; reflexivity|].
+      apply imap_raise_sequential; [left; exact Hps | exact Hok].
+    + destruct (first_exc_index _ _ Hf) as (i & Hi & Hv).
+      destruct (first_fail_split items arr) as (pre' & j & e & post' & -> & Hj & Hpre).
+      { exists i, e0. split; [apply Hp; exact Hi | exact Hv]. }
+      destruct (imap_raise_first_arriving pool_size items pre' j e post' split) as (k & _ & Hk); try assumption.
+      exists e, (firstn k items). split; [|exact Hk].
+      assert (Hjl : j < length items) by (apply Hp, in_or_app; right; left; reflexivity).
+      unfold value_of in Hj. rewrite <- Hj. apply nth_In. exact Hjl.
+Qed.
+
 (* a failing source is never swallowed: some source's own exception reaches the caller, nothing is merged *)
 Lemma query_sources_failure items arr split e0 :
   is_perm arr (length items) -> first_exc items = Some e0 ->
   exists e, In (Exc e) items /\ query_sources items arr split = ([], Some e).
 Proof.
   intros Hp Hf. unfold query_sources.
-  destruct (Nat.lt_ge_cases (length items) 2) as [Hlen|Hlen].
-  - (* a single source: _single_call *)
-    destruct (first_exc_split _ _ Hf) as (pre & post & -> & Hok).
-    exists e0. split; [apply in_or_app; right; left; reflexivity|].
-    rewrite (imap_raise_sequential _ pre e0 post arr split); [reflexivity | | exact Hok].
-    right. rewrite app_length in *. simpl in *. destruct pre; simpl in *; lia.
-  - destruct (first_exc_index _ _ Hf) as (i & Hi & Hv).
-    destruct (first_fail_split items arr) as (pre & j & e & post & -> & Hj & Hpre).
-    { exists i, e0. split; [apply Hp; exact Hi | exact Hv]. }
-    destruct (imap_raise_first_arriving (Nat.min (length items) MAX_MAP_ASYNC_THREADS) items pre j e post split)
-      as (k & _ & ->); try assumption.
-    { unfold MAX_MAP_ASYNC_THREADS. lia. }
-    exists e. split; [|reflexivity].
-    assert (Hjl : j < length items) by (apply Hp, in_or_app; right; left; reflexivity).
-    unfold value_of in Hj. rewrite <- Hj. apply nth_In. exact Hjl.
+  destruct (imap_raise_failure (Nat.min (length items) MAX_MAP_ASYNC_THREADS) items arr split e0 Hp Hf)
+    as (e & rs & Hin & ->).
+  exists e. split; [exact Hin | reflexivity].
+Qed.
+
+(* ---- _create_threaded *)
+Lemma create_threaded_ok pool_size items arr split :
+  is_perm arr (length items) -> all_ok items ->
+  create_threaded pool_size items arr split = (nonblank items, None).
+Proof.
+  intros Hp Hok. unfold create_threaded. rewrite (imap_raise_all_ok _ _ _ _ Hp Hok). reflexivity.
+Qed.
+
+Lemma create_threaded_failure pool_size items arr split e0 :
+  is_perm arr (length items) -> first_exc items = Some e0 ->
+  exists e, In (Exc e) items /\ create_threaded pool_size items arr split = ([], Some e).
+Proof.
+  intros Hp Hf. unfold create_threaded.
+  destruct (imap_raise_failure pool_size items arr split e0 Hp Hf) as (e & rs & Hin & ->).
+  exists e. split; [exact Hin | reflexivity].
+Qed.
+
+(* ---- thread-start faults *)
+Lemma imap_start_fault pool_size uro items arr split k :
+  2 <= pool_size -> 2 <= length items -> k < pool_size ->
+  imap_start pool_size uro items arr split (Some k) = ([], Some E_START).
+Proof.
+  intros Hps Hlen Hk. unfold imap_start.
+  destruct items as [|v [|w r]]; try (simpl in Hlen; lia).
+  replace (Nat.ltb pool_size 2) with false by (symmetry; apply Nat.ltb_ge; exact Hps).
+  replace (Nat.ltb k pool_size) with true by (symmetry; apply Nat.ltb_lt; exact Hk). reflexivity.
+Qed.
+
+Lemma imap_start_no_fault pool_size uro items arr split fail_at :
+  match fail_at with Some k => pool_size <= k | None => True end ->
+  imap_start pool_size uro items arr split fail_at = imap pool_size uro items arr split.
+Proof.
+  intros H. unfold imap_start.
+  destruct items as [|v [|w r]]; try reflexivity.
+  - destruct (Nat.ltb pool_size 2); destruct fail_at as [k|]; try reflexivity.
+    replace (Nat.ltb k pool_size) with false by (symmetry; apply Nat.ltb_ge; exact H). reflexivity.
+  - destruct (Nat.ltb pool_size 2); [reflexivity|]. destruct fail_at as [k|]; [|reflexivity].
+    replace (Nat.ltb k pool_size) with false by (symmetry; apply Nat.ltb_ge; exact H). reflexivity.
+Qed.
+
+Lemma imap_start_no_pool pool_size uro items arr split fail_at :
+  pool_size < 2 \/ length items = 1 ->
+  imap_start pool_size uro items arr split fail_at = imap pool_size uro items arr split.
+Proof.
+  intros H. unfold imap_start.
+  destruct items as [|v [|w r]]; try reflexivity.
+  - destruct H as [H|H]; [|discriminate].
+    replace (Nat.ltb pool_size 2) with true by (symmetry; apply Nat.ltb_lt; exact H). reflexivity.
+  - destruct H as [H|H]; [|simpl in H; lia].
+    replace (Nat.ltb pool_size 2) with true by (symmetry; apply Nat.ltb_lt; exact H). reflexivity.
 Qed.
 
 (* ---- bulk loads / stores of the S3 and Azure caches *)
@@ -460,4 +524,10 @@ Example bulk_io_example : bulk_io 4 [Ok (-1); Ok 1; Ok 2; Ok 3] [3; 2; 1; 0] 2 =
 Proof. vm_compute. reflexivity. Qed.
 Example render_capture_reports_example :
   render_capture 3 [Ok (-1); Exc 5; Ok (-1)] [2; 0; 1] 1 = ([(-2)%Z], [5%Z], None).
+Proof. vm_compute. reflexivity. Qed.
+Example create_threaded_example : create_threaded 3 [Ok 4; Ok (-1); Ok 6] [2; 0; 1] 1 = ([4%Z; 6%Z], None).
+Proof. vm_compute. reflexivity. Qed.
+Example create_threaded_fail_example : create_threaded 3 [Exc 7; Ok 5; Ok 6] [2; 1; 0] 1 = ([], Some 7%Z).
+Proof. vm_compute. reflexivity. Qed.
+Example imap_start_example : imap_start 2 true [Ok 1; Ok 2; Ok 3] [0; 1; 2] 1 (Some 1) = ([], Some E_START).
 Proof. vm_compute. reflexivity. Qed.
